@@ -20,6 +20,11 @@ index expression of another reference (`t[s] === y` mentions `t[s]` and `s`;
 (name, access text).  `Gen.inside` maps a key to the keys occurring inside its
 index expressions; it is a function of the key text alone.
 
+Round 6: `generate` also returns `main_line` (`component main = T(3);`): the
+check analyses every file WITHOUT it (template library) and WITH it (program
+archive) - the two front-end paths build their TemplateData at different call
+sites - and demands the same findings in both.
+
 Deliberate shapes (each counted in the coverage of the check, each the only
 witness of some realistic edit):
 
@@ -1004,6 +1009,7 @@ class Gen:
              "parallel": parallel, "header": "template %s%s" % ("custom " if custom else "", "parallel " if parallel else "")}
         self.defs.append(d)
         params = ["n"] if self.p(0.7) else []
+        d["params"] = list(params)
         w.put("%s%s(%s) {\n" % (d["header"], name, ", ".join(params)))
         self.features.add("header:" + d["header"].strip())
         sc = {"def": d, "depth": 1, "loops": [], "locals": [], "params": params, "fresh": [0], "assigned": [],
@@ -1109,7 +1115,15 @@ class Gen:
             plan.insert(self.rng.randrange(len(plan) + 1), ("G%d" % i, True, self.p(0.4)))
         for name, custom, parallel in plan:
             self.template(name, custom=custom, parallel=parallel)
-        return {"src": self.w.text(), "defs": self.defs, "features": sorted(self.features)}
+        # round 6: the ONE main component that turns the file into a PROGRAM (ParseResult::Program -> ProgramArchive::new
+        # -> Merger::add_definitions) instead of a template library (TemplateLibrary::new).  It is NOT part of `src`:
+        # the check analyses `src` (library mode) and `src + main_line` (program mode); appended at the end, it moves no
+        # recorded range.  The instantiated template is an ordinary or a parallel one, never a custom one.
+        hosts = [d for d in self.defs if d["kind"] == "template" and "header" in d]
+        host = self.ch(hosts)
+        public = " {public [x0]}" if self.p(0.3) else ""
+        main_line = "component main%s = %s(%s);\n" % (public, host["name"], ", ".join("3" for _ in host["params"]))
+        return {"src": self.w.text(), "defs": self.defs, "features": sorted(self.features), "main_line": main_line}
 
 
 def generate(rng, size=8):
